@@ -108,6 +108,13 @@ def rand_note(rng, kinds=NONREL, vals=(-15, 15), octs=(-3, 3), p_acc=0.25, p_mod
         n.val = rng.randrange(7)
     if k in ('s', 'h', 'su', 'sd') and rng.random() < p_mode:
         n.mode = rng.choice(MODES)
+    if k in ('c', 'b') and rng.random() < 0.3 * max(p_mode, p_acc):
+        # a per-note mode or accidental written on a chord- / bass-tone note: legal, and ignored while the note is a chord
+        # tone (seed C11-6: it started to apply once the note was rewritten as a scale note)
+        if rng.random() < 0.5:
+            n.mode = rng.choice(MODES)
+        else:
+            n.accident = rng.choice(ACCS)
     if rng.random() < p_amp:
         n = getattr(n, rng.choice(['ppp', 'pp', 'p', 'mp', 'mf', 'f', 'ff', 'fff']))
     return n
